@@ -252,6 +252,42 @@ def check(ctx: Ctx) -> list[RuleResult]:
     fold_flag(ctx, r5, P, "_DBG_DISABLE_QOS", False, "QoS (echo matching, retries, the bounded wait) would be bypassed and send_cmd would return None")
     fold_flag(ctx, r5, P, "_DBG_DISABLE_IMPERSONATION_ALERTS", False, "the mandatory impersonation notice would be skipped")
     out.append(r5)
+    # ---- R6 ---------------------------------------------------------------------------
+    # whether a send returns its echo or waits for the reply is carried by the caller's QosParams - and the protocol rewrites that
+    # object in place (`qos._wait_for_reply = False` for codes without QoS). That is only sound while every send owns its QosParams:
+    # a memoised/shared factory hands the rewritten object to the next caller who asked for the same settings
+    r6 = RuleResult("R6", "QoS objects that are rewritten in place are not shared between sends", "no cached factory returns an object of a class whose instances are mutated outside the class", min_instances=1)
+    mutated: dict[str, list] = {}
+    for g in repo.funcs.values():
+        if not g.module.name.startswith(("ramses_tx", "ramses_rf")):
+            continue
+        for n in own_nodes(g.node):
+            if isinstance(n, ast.Attribute) and isinstance(n.ctx, ast.Store) and not (isinstance(n.value, ast.Name) and n.value.id in ("self", "cls")):
+                for a in ctx.cg.atoms(g, n.value) or ():
+                    if a.startswith("I:ramses_"):
+                        k = a[2:]
+                        if g.cls is None or g.cls.fullname != k:
+                            mutated.setdefault(k, []).append((g, n))
+    qp = "ramses_tx.typing.QosParams"
+    if qp not in mutated:
+        r6.notes.append("QosParams is no longer rewritten in place anywhere")
+    cached = [g for g in repo.funcs.values() if g.module.name.startswith(("ramses_tx", "ramses_rf")) and any("cache" in d for d in g.decorators)]
+    r6.instances += 1
+    r6.nontrivial += 1
+    r6.ok({"classes_mutated_outside_their_own_methods": sorted(k.rsplit(".", 1)[-1] for k in mutated)[:12], "cached_functions_examined": len(cached)})
+    for g in cached:
+        rets = [n.value for n in own_nodes(g.node) if isinstance(n, ast.Return) and n.value is not None]
+        kinds = set()
+        for rv in rets:
+            for a in ctx.cg.atoms(g, rv) or ():
+                if a.startswith("I:") and a[2:] in mutated:
+                    kinds.add(a[2:])
+        for k in sorted(kinds):
+            r6.instances += 1
+            r6.nontrivial += 1
+            mg, mn = mutated[k][0]
+            r6.fail(f"{g.short}:cached-factory-of-mutated-class:{k.rsplit('.', 1)[-1]}", g.loc(), f"{g.short} is memoised and returns a {k.rsplit('.', 1)[-1]}, but instances of that class are rewritten in place ({mg.short}: `{norm(getattr(mn, 'parent', mn))[:60]}`): what one send did to its object is handed to the next caller with the same arguments - e.g. a later RQ|0418 sent with wait_for_reply=True returns its echo instead of the reply")
+    out.append(r6)
     borrow(ctx, out, "c06", ["R3"], "the packet handed to the caller is the one whose whole header matched")
     borrow(ctx, out, "c08", ["R4", "R5"], "one in flight; an unorderable queue entry raises TypeError out of send_cmd and wedges the dequeue")
     borrow(ctx, out, "c09", ["R1", "R3", "R4", "R6"], "an exception inside the FSM's callbacks leaves the caller unanswered until its timeout")
